@@ -3,3 +3,60 @@ package main
 import "os"
 
 var debugWF = os.Getenv("GOVC_DEBUG_WF") != ""
+
+// debugEvals evaluates the spec expressions of GOVC_EVAL (separated by ';') in env; their values are
+// added to the model printed for a failed obligation (development aid).
+func debugEvals(env *SpecEnv) []NamedVal {
+	src := os.Getenv("GOVC_EVAL")
+	if src == "" {
+		return nil
+	}
+	var out []NamedVal
+	for _, part := range splitSemis(src) {
+		func() {
+			defer func() { recover() }()
+			e, err := ParseSpecExpr(part)
+			if err != nil {
+				return
+			}
+			v := env.eval(e)
+			out = append(out, NamedVal{Name: "eval[" + part + "]", V: v})
+		}()
+	}
+	return out
+}
+
+func splitSemis(s string) []string {
+	var out []string
+	cur := ""
+	for _, c := range s {
+		if c == ';' {
+			if cur != "" {
+				out = append(out, cur)
+			}
+			cur = ""
+			continue
+		}
+		cur += string(c)
+	}
+	if cur != "" {
+		out = append(out, cur)
+	}
+	return out
+}
+
+var debugInst = os.Getenv("GOVC_DEBUG_INST") != ""
+
+// instRounds: rounds of engine-side quantifier instantiation (GOVC_INST_ROUNDS overrides).
+var instRounds = func() int {
+	if v := os.Getenv("GOVC_INST_ROUNDS"); v != "" {
+		n := 0
+		for _, c := range v {
+			n = n*10 + int(c-'0')
+		}
+		if n > 0 {
+			return n
+		}
+	}
+	return 2
+}()
